@@ -131,10 +131,23 @@ def externals(store):
     def _zeros_like(a, k):
         return [Poly() for _ in a[0]] if isinstance(a[0], (list, tuple)) else Poly()
 
+    def _deep(x):
+        from .listnp import T
+        return T([_deep(y) for y in x]) if isinstance(x, (list, tuple)) else x
+
+    def _asarray(a, k):
+        from .listnp import T
+        return a[0] if isinstance(a[0], T) else _deep(a[0])
+
+    def _array(a, k):
+        return _deep(a[0])
+
     return {
         "__elementwise__": True,
         "divide": _divide, "multiply": _multiply, "zeros_like": _zeros_like,
-        "asarray": lambda a, k: a[0], "array": lambda a, k: (list(a[0]) if isinstance(a[0], tuple) else a[0]),
+        # numpy's aliasing rules: asarray of an ARRAY is that array (in-place edits show through every alias), of a python
+        # sequence a new array; array() always copies
+        "asarray": _asarray, "array": _array,
         "Element": lambda a, k: Elem(a[0], {kk: vv for kk, vv in k.items()}),
         "str": _str, "float": _float,
         "_export_root_histogram": _export, "import_root_histogram": _import,
